@@ -43,7 +43,9 @@ def dir_ok(p, dist, direction, tol, bw, i, j):
     return in_band and in_angle
 
 
-def unstructured(f, bins, pos, est="m", dist="e"):
+def unstructured(f, bins, pos, est="m", dist="e", scale=1.0):
+    """`scale`: length unit of the bins (distance * scale is compared with the edges; 1.0 = the unit of the distance function,
+    i.e. radians for dist="h")"""
     nb = len(bins) - 1
     s = np.zeros(nb)
     c = np.zeros(nb, dtype=np.int64)
@@ -52,6 +54,8 @@ def unstructured(f, bins, pos, est="m", dist="e"):
     for j in range(P - 1):
         for k in range(j + 1, P):
             d = dfun(pos, j, k)
+            if scale != 1.0:
+                d = d * scale
             for i in range(nb):
                 if bins[i] <= d < bins[i + 1]:
                     for m in range(f.shape[0]):
@@ -59,6 +63,15 @@ def unstructured(f, bins, pos, est="m", dist="e"):
                             c[i] += 1
                             s[i] += term(est, f[m, k] - f[m, j])
     return np.array([normalise(est, s[i], c[i]) for i in range(nb)]), c
+
+
+def great_circle_box_diameter(latlon):
+    """great-circle length (radians) of the diagonal of the bounding box of the points on the unit sphere
+    (x = cos lat cos lon, y = cos lat sin lon, z = sin lat): the documented 'box diameter' of lat-lon standard bins"""
+    la, lo = np.deg2rad(np.asarray(latlon[0], float)), np.deg2rad(np.asarray(latlon[1], float))
+    xyz = np.array([np.cos(la) * np.cos(lo), np.cos(la) * np.sin(lo), np.sin(la)])
+    chord = math.sqrt(float(np.sum((xyz.max(axis=1) - xyz.min(axis=1)) ** 2)))
+    return 2.0 * math.asin(min(chord / 2.0, 1.0))
 
 
 def directional(f, bins, pos, direction, tol, bw, est="m", first_only=False, zero_first_only=False):
